@@ -9,8 +9,9 @@ EXTENDS Lifecycle, Json, IOUtils
 
 CONSTANTS Depth, MaxBury
 Plan == JsonDeserialize(IOEnv.LC_PLAN)
-K == WithSwitches(WithCrash(MkK(Plan.D, Plan.S, Plan.W, Plan.maxd, SeqToSet(Plan.cd), SeqToSet(Plan.kinds), Plan.pairs,
-         SeqToSet(Plan.bury), Plan.rev, Plan.mir, Plan.mode, Plan.empty), Plan.crash), Plan.markFirst, Plan.dropOrphans)
+K == WithDeep(WithSwitches(WithCrash(MkK(Plan.D, Plan.S, Plan.W, Plan.maxd, SeqToSet(Plan.cd), SeqToSet(Plan.kinds), Plan.pairs,
+         SeqToSet(Plan.bury), Plan.rev, Plan.mir, Plan.mode, Plan.empty), Plan.crash), Plan.markFirst, Plan.dropOrphans),
+         Plan.DX, SeqToSet(Plan.around))
 RQ == Requests(K)
 
 VARIABLES s, hist, nb, w
